@@ -164,8 +164,9 @@ func (dw *DeltaSelector) fixAndBreakChains(objectsToPack []*ObjectToPack) error 
 		m[otp.Hash()] = otp
 	}
 
+	visiting := make(map[*ObjectToPack]struct{})
 	for _, otp := range objectsToPack {
-		if err := dw.fixAndBreakChainsOne(m, otp); err != nil {
+		if err := dw.fixAndBreakChainsOne(m, visiting, otp); err != nil {
 			return err
 		}
 	}
@@ -173,7 +174,11 @@ func (dw *DeltaSelector) fixAndBreakChains(objectsToPack []*ObjectToPack) error 
 	return nil
 }
 
-func (dw *DeltaSelector) fixAndBreakChainsOne(objectsToPack map[plumbing.Hash]*ObjectToPack, otp *ObjectToPack) error {
+func (dw *DeltaSelector) fixAndBreakChainsOne(
+	objectsToPack map[plumbing.Hash]*ObjectToPack,
+	visiting map[*ObjectToPack]struct{},
+	otp *ObjectToPack,
+) error {
 	if !otp.Object.Type().IsDelta() {
 		return nil
 	}
@@ -199,7 +204,18 @@ func (dw *DeltaSelector) fixAndBreakChainsOne(objectsToPack map[plumbing.Hash]*O
 		return dw.undeltify(otp)
 	}
 
-	if err := dw.fixAndBreakChainsOne(objectsToPack, base); err != nil {
+	if _, ok := visiting[base]; ok || base == otp {
+		// The stored deltas form a cycle. Each of them is valid on its
+		// own: the objects were found in different packs, one holding A
+		// as a delta on B and the other B as a delta on A. Break the
+		// cycle here, as git's break_delta_chains does.
+		return dw.undeltify(otp)
+	}
+
+	visiting[otp] = struct{}{}
+	err := dw.fixAndBreakChainsOne(objectsToPack, visiting, base)
+	delete(visiting, otp)
+	if err != nil {
 		return err
 	}
 
